@@ -72,7 +72,7 @@ def _spec(i):
 
 
 NSPEC = 7
-MUTS = ['origin_ref', 'value', 'units', 'data', 'window', 'shape', 'dtype', 'add']
+MUTS = ['origin_ref', 'value', 'units', 'data', 'window', 'shape', 'dtype', 'add', 'chunks']
 EVENTS = [f'F{i}' for i in range(NSPEC)] + ['RW'] + [f'M:{m}' for m in MUTS] + ['HC+', 'HC-', 'HCX']
 
 
@@ -130,6 +130,9 @@ def mutation_ops(m, spec=None):
         return [], {'data': {'$datadict': {'CH-B': S.arr_spec('float64', [3], [F64['two'], F64['n0'], F64['n0']])}}}
     if m == 'window':
         return [], {'from_idx': 1}
+    if m == 'chunks':
+        # other chunk sizes for the next write (the file must not depend on them, nor on those of earlier writes)
+        return [], {'input_chunk_size': 1, 'output_chunk_size': 8192}
     if m == 'add':
         # more objects are added to the already written file: a same-named zone (copy number), a parameter referring
         # to both zones, a third origin, and a no-format record
